@@ -170,7 +170,10 @@ peg::parser! {
                 let start = s.location();
                 let end = &d.loc;
                 let loc = SourceSpan::within(start, end);
-                ast::ForClauseCommand { variable_name: n.to_owned(), values: w, body: d, loc }
+                // N.B. An empty `in` list is not the same as no `in` list: the former iterates
+                // over nothing, the latter over the positional parameters.
+                let values = Some(w.unwrap_or_default());
+                ast::ForClauseCommand { variable_name: n.to_owned(), values, body: d, loc }
             } /
             s:specific_word("for") n:name() sequential_sep()? d:do_group() {
                 let start = s.location();
